@@ -316,4 +316,132 @@ theorem run_sim [Mul K] {cfg : Cfg} (hs : cfg.sound = true) (pre : PrefixesN K) 
     simp only [run, absRun]
     exact ⟨h2, by rw [ho, hos]⟩
 
+/-! ### the string route with its cache -/
+
+theorem findN_cons {α : Type} (k k' : Name) (v : α) (r : List (Name × α)) :
+    findN k ((k', v) :: r) = if k' = k then some v else findN k r := by
+  simp only [findN]
+  by_cases h : k' = k
+  · subst h; simp [Nat.beq_refl]
+  · have : Nat.beq k' k = false := by
+      cases hb : Nat.beq k' k
+      · rfl
+      · exact absurd ((beq_iff _ _).1 hb) h
+    simp [this, h]
+
+/-- every cached object is what a fresh construction from the user's table would give -/
+def CacheInv [Mul K] (rt : Route K) (cache : List (Name × UnitR K)) (c : Contents K) : Prop :=
+  ∀ name u, findN name cache = some u → freshUnit rt c name = some u
+
+def InvS [Mul K] (rt : Route K) (r : RegS K) (c : Contents K) : Prop :=
+  Inv rt.pre r.reg c ∧ CacheInv rt r.cache c
+
+theorem CacheInv.nil [Mul K] (rt : Route K) (c : Contents K) : CacheInv rt [] c := by
+  intro name u h; simp [findN] at h
+
+theorem CacheInv.cons [Mul K] {rt : Route K} {cache : List (Name × UnitR K)} {c : Contents K}
+    (h : CacheInv rt cache c) (name : Name) (u : UnitR K) (hu : freshUnit rt c name = some u) :
+    CacheInv rt ((name, u) :: cache) c := by
+  intro n v hf
+  rw [findN_cons] at hf
+  by_cases hn : name = n
+  · subst hn; simp at hf; subst hf; exact hu
+  · simp [hn] at hf; exact h n v hf
+
+theorem update_none_self (c : Contents K) (s : Name) (h : c s = none) : update c s none = c := by
+  funext k
+  simp only [update]
+  by_cases hk : k = s
+  · subst hk; simp [h]
+  · simp [hk]
+
+theorem freshS_inv [Mul K] (rt : Route K) (t : Dict (Entry K)) : InvS rt (freshS t) t.get? :=
+  ⟨fresh_inv rt.pre t, CacheInv.nil rt _⟩
+
+theorem stepS_sim [Mul K] {cfg : Cfg} {cc : CacheCfg} (hs : cfg.sound = true) (hcs : cc.sound = true)
+    (rt : Route K) (dflt : Dict (Entry K)) (r : RegS K) (c : Contents K) (h : InvS rt r c) (op : OpS K) :
+    InvS rt (stepS cfg cc rt dflt r op).1 (absStepS dflt c op) ∧
+      (stepS cfg cc rt dflt r op).2 = absOutS rt c op := by
+  have hcc : cc.addClears = true ∧ cc.removeClears = true ∧ cc.modifyClears = true ∧ cc.reloadEmpty = true := by
+    unfold CacheCfg.sound at hcs
+    simp only [Bool.and_eq_true] at hcs
+    exact ⟨hcs.1.1.1, hcs.1.1.2, hcs.1.2, hcs.2⟩
+  cases op with
+  | unit name =>
+    simp only [stepS, absStepS, absOutS]
+    cases hf : findN name r.cache with
+    | some u =>
+      simp only
+      exact ⟨h, by rw [h.2 name u hf]⟩
+    | none =>
+      simp only
+      by_cases h0 : name = 0
+      · have hfu : freshUnit rt c name = some .one := by simp [freshUnit, h0]
+        simp only [h0, if_true]
+        refine ⟨⟨h.1, ?_⟩, ?_⟩
+        · rw [← h0]; exact h.2.cons name .one hfu
+        · rw [← h0, hfu]
+      · simp only [h0, if_false]
+        cases hsym : rt.symbolOf name with
+        | none =>
+          simp only
+          refine ⟨h, ?_⟩
+          simp [freshUnit, h0, hsym]
+        | some s =>
+          simp only
+          obtain ⟨hi, ho⟩ := step_sim hs rt.pre dflt r.reg c h.1 (.look s)
+          cases hst : step cfg rt.pre dflt r.reg (.look s) with
+          | mk reg1 out =>
+            rw [hst] at hi ho
+            simp only [absStep] at hi
+            simp only [absOut] at ho
+            subst ho
+            cases hl : lookupF rt.pre c s with
+            | none =>
+              simp only
+              refine ⟨⟨hi, h.2⟩, ?_⟩
+              simp [freshUnit, h0, hsym, hl]
+            | some e =>
+              simp only
+              have hfu : freshUnit rt c name = some (.sym s e) := by simp [freshUnit, h0, hsym, hl]
+              exact ⟨⟨hi, h.2.cons name _ hfu⟩, by rw [hfu]⟩
+  | op o =>
+    simp only [stepS, absStepS, absOutS]
+    obtain ⟨hi, ho⟩ := step_sim hs rt.pre dflt r.reg c h.1 o
+    cases hst : step cfg rt.pre dflt r.reg o with
+    | mk reg1 out =>
+      rw [hst] at hi ho
+      simp only at hi ho
+      subst ho
+      simp only
+      refine ⟨⟨hi, ?_⟩, trivial⟩
+      cases o with
+      | look s => simp only [absStep]; exact h.2
+      | add s e => simp only [hcc.1, if_true]; exact CacheInv.nil rt _
+      | reload => simp only [hcc.2.2.2, if_true]; exact CacheInv.nil rt _
+      | remove s =>
+        simp only [absOut, absStep]
+        rcases Option.eq_none_or_eq_some (c s) with hc | ⟨e0, hc⟩
+        · simp only [hc, update_none_self c s hc]; exact h.2
+        · simp only [hc, hcc.2.1, if_true]; exact CacheInv.nil rt _
+      | modify s v =>
+        simp only [absOut, absStep]
+        rcases Option.eq_none_or_eq_some (c s) with hc | ⟨e0, hc⟩
+        · simp only [hc]; exact h.2
+        · simp only [hc, hcc.2.2.1, if_true]; exact CacheInv.nil rt _
+
+theorem runS_sim [Mul K] {cfg : Cfg} {cc : CacheCfg} (hs : cfg.sound = true) (hcs : cc.sound = true)
+    (rt : Route K) (dflt : Dict (Entry K)) (ops : List (OpS K)) :
+    ∀ (r : RegS K) (c : Contents K), InvS rt r c →
+      InvS rt (runS cfg cc rt dflt r ops).1 (absRunS rt dflt c ops).1 ∧
+        (runS cfg cc rt dflt r ops).2 = (absRunS rt dflt c ops).2 := by
+  induction ops with
+  | nil => intro r c h; exact ⟨h, rfl⟩
+  | cons op ops ih =>
+    intro r c h
+    obtain ⟨h1, ho⟩ := stepS_sim hs hcs rt dflt r c h op
+    obtain ⟨h2, hos⟩ := ih _ _ h1
+    simp only [runS, absRunS]
+    exact ⟨h2, by rw [ho, hos]⟩
+
 end Unyt.NamesHist
